@@ -1392,6 +1392,51 @@ fn evaluate_cases(
             } else {
                 None
             };
+            // the other two ways of supplying the feature set must generate the
+            // same file as the CLI's --features: Configuration::set_features and
+            // the CARGO_FEATURE_* environment (process_dir without set_features)
+            let mut fail = fail;
+            if fail.is_none() && batch.accepted[ia] {
+                use super::driver_common::Api;
+                let cli_text = batch.generated(&m_cfg);
+                let rdir = batch.dir.join("routes").join(format!("g{gi}"));
+                let feats: Vec<String> = c.feats.iter().cloned().collect();
+                for route in ["set_features", "cargo_feature_env"] {
+                    let d = rdir.join(route);
+                    let _ = std::fs::create_dir_all(d.join("in"));
+                    let _ = std::fs::write(d.join("in/g.lalrpop"), &batch.units[ia].text);
+                    let api = if route == "set_features" {
+                        Api {
+                            cfg: vec![json!(["set_features", feats]), json!(["set_out_dir", "out"]), json!(["force_build", true])],
+                            run: json!(["process_file", "in/g.lalrpop"]),
+                            env: BTreeMap::new(),
+                        }
+                    } else {
+                        let env: BTreeMap<String, String> =
+                            feats.iter().map(|f| (format!("CARGO_FEATURE_{}", f.to_uppercase().replace('-', "_")), "1".to_string())).collect();
+                        Api { cfg: vec![json!(["set_out_dir", "out"]), json!(["force_build", true])], run: json!(["process_dir", "in"]), env }
+                    };
+                    let o = api.exec(ctx, &d);
+                    let got = std::fs::read_to_string(d.join("out/g.rs")).ok();
+                    if count {
+                        ck.eval();
+                        ck.class(&format!("c15_route_{route}"));
+                    }
+                    if got != cli_text {
+                        fail = Some((
+                            format!("feature-route-differs/{route}"),
+                            format!(
+                                "features {:?} given through {route} generate {} than through --features (exit {:?})",
+                                c.feats,
+                                if got.is_none() { "no output (error) rather" } else { "a different parser" },
+                                o.exit
+                            ),
+                        ));
+                        break;
+                    }
+                }
+                let _ = std::fs::remove_dir_all(&rdir);
+            }
             if let Some((kind, what)) = fail {
                 fails[gi].push(Fail {
                     sig: format!("C15/{kind}"),
